@@ -1218,6 +1218,41 @@ func ruleReindex(c *Ctx) {
 				}
 			}
 		}
+		// … and only after the candidates for this position were read: a store (or ring insert) ahead of the lookup
+		// overwrites the slot, or evicts the oldest entry of a full bucket, before it can be found
+		if every {
+			early := ""
+			for _, ti := range mine {
+				if !fi.lin(stripConv(ti.pos)).eq(P) || fi.loopOf(ti.in.Block()) != s.L {
+					continue
+				}
+				for b := range s.L.Blocks {
+					for _, in := range b.Instrs {
+						ld, ok := in.(*ssa.UnOp)
+						if !ok || ld.Op != token.MUL || !c.isEntryType(ld.Type()) {
+							continue
+						}
+						if _, isAlloc := ld.X.(*ssa.Alloc); isAlloc {
+							continue // a local copy, not a table read
+						}
+						// another table (the second hash of the double-hash parsers) is not affected
+						if ia, ok := ld.X.(*ssa.IndexAddr); ok {
+							if _, lp, ok := pathStr(ia.X); ok && lp != "" && !strings.HasPrefix(lp, ti.path) && !strings.HasPrefix(ti.path, lp) {
+								continue
+							}
+						}
+						if fi.instrReachesInIteration(ti.in, ld, s.L) {
+							early = c.pos(ld.Pos())
+							if early == "" {
+								early = "block " + fmt.Sprint(ld.Block().Index)
+							}
+						}
+					}
+				}
+			}
+			c.check(early == "", s.Key+":index-after-lookup", s.P.Pos(), "the scanned position enters the table after the candidates for it were read",
+				"the scanned position is stored into the table before the candidate at "+early+" is read: the entry that would have matched may just have been overwritten (single slot) or evicted (full bucket)")
+		}
 		c.check(every, s.Key+":index-current", s.P.Pos(), "the scanned position is stored into the hash table on every iteration ("+firstPath+")",
 			"the scanned position is not stored into a hash table on every iteration of the scan: position i−1 may be missing as a candidate for position i (runs are then not compressed)")
 		// (3) every table that receives the scanned position on every iteration also receives the positions
